@@ -13,7 +13,7 @@ CHECKS = {
             "all values and all pairs for the 8-bit types, all values of the 16-bit types for one-bound forms, "
             "a boundary lattice plus a dense band around zero for the wider types; each result is compared with "
             "Python's slice.indices re-implemented in i128 (itself compared with CPython at start-up). "
-            "The space is finite and enumerated completely, so a wrong bound for any listed case is reported on every run.",
+            "The space is finite and enumerated completely, so a wrong bound for any listed case is reported on every run. Every i32 selector with bounds in -9..=9 on axes of 0..=6 is also applied through the 17 public entry points that take a selector (Shape::view, Surface::view / view_mut / view_owned - also chained and on transposed surfaces -, Image::crop on row-major and column-major images) and what it selected is read off the cells.",
             "Trusts CPython's slice semantics and the statement's reading of an inclusive end; wide types are covered on a lattice, not every value.",
             "DESIGN.md §C08"),
 }
